@@ -231,7 +231,7 @@ func checkGuardedBy(w *World, r *Report, ri *RuleInfo, t *types.Named) (map[*typ
 
 // ---- C16 -------------------------------------------------------------------------------------------
 
-func checkC16(w *World, r *Report) {
+func findSigner(w *World) (*types.Named, *types.Interface) {
 	signer := w.Named("internal/rules/mechanisms/finalizers", "jwtSigner")
 	// role-based: the type in the finalizers package that implements watcher.ChangeListener and has a method Sign
 	cl := w.Iface("internal/watcher", "ChangeListener")
@@ -242,6 +242,11 @@ func checkC16(w *World, r *Report) {
 			}
 		}
 	}
+	return signer, cl
+}
+
+func checkC16(w *World, r *Report) {
+	signer, cl := findSigner(w)
 	if signer == nil {
 		r.Undecided(nil, "the JWT signer type was not found")
 		return
@@ -391,7 +396,48 @@ func c16SystemClaims(w *World, r *Report, signer *types.Named) {
 				}
 				return false
 			})
-			return ok && add, "exp must be the issue time plus the ttl parameter"
+			// ... and nothing else: every time value that can become exp is that sum (a cap or another
+			// source makes the token's lifetime differ from the ttl the caller caches it for)
+			only := true
+			var leaves func(x ssa.Value, d int)
+			seenL := map[ssa.Value]bool{}
+			leaves = func(x ssa.Value, d int) {
+				x = stripConv(x)
+				if x == nil || seenL[x] || d > 8 {
+					return
+				}
+				seenL[x] = true
+				switch y := x.(type) {
+				case *ssa.Phi:
+					for _, e := range y.Edges {
+						leaves(e, d+1)
+					}
+				case *ssa.Call:
+					n := callName(y.Common())
+					if n == "time.Time.Add" && len(y.Common().Args) == 2 && y.Common().Args[1] == ttlV {
+						return
+					}
+					if strings.HasPrefix(n, "time.Time.") && len(y.Common().Args) >= 1 && (n == "time.Time.Unix" || n == "time.Time.UTC" || n == "time.Time.Round" || n == "time.Time.Truncate" || n == "time.Time.Local" || n == "time.Time.UnixMilli") {
+						leaves(y.Common().Args[0], d+1)
+						return
+					}
+					if strings.HasSuffix(n, "NewNumericDate") && len(y.Common().Args) == 1 {
+						leaves(y.Common().Args[0], d+1)
+						return
+					}
+					only = false
+				case *ssa.UnOp:
+					if al, isA := y.X.(*ssa.Alloc); isA && y.Op == token.MUL {
+						w.eachStore(al, func(st *ssa.Store) { leaves(st.Val, d+1) })
+						return
+					}
+					only = false
+				default:
+					only = false
+				}
+			}
+			leaves(v, 0)
+			return ok && add && only, "exp must be the issue time plus the ttl parameter (and nothing else)"
 		},
 		"jti": func(v ssa.Value) (bool, string) {
 			c, _ := resultOfCall(stripConv(v))
